@@ -2,7 +2,7 @@ SPECIFICATION Spec
 CONSTANTS
   Hashes = {1, 2, 3, 4, 5}
   Caps = {0, 1, 2, 3, 4}
-  MaxOps = 10
+  MaxOps = 9
 INVARIANTS TypeOK RecentRefused FreshAccepted RememberedWereSeen
 VIEW View
 CHECK_DEADLOCK FALSE
